@@ -49,6 +49,7 @@ class World:
         self.open_failure = False  # bool | symbolic: open() of an existing node raises (EACCES, EBUSY, ...)
         self.havoc = None  # callable(datain) -> None: the device writes into the data-in buffer
         self.handles = []
+        self.link_inode = {}  # path -> inode of the symbolic link itself, for paths that are symbolic links to the node
         self.created = []  # paths that open() created because they did not exist (regular files, never device nodes)
         self.all_present = False  # every path names an existing node (used where the file system is not the subject)
 
@@ -84,6 +85,13 @@ class World:
         if not self.present.get(path, self.all_present):
             raise FileNotFoundError(2, "No such file or directory", path)
         return SimpleNamespace(st_ino=self.inode.get(path, 0))
+
+    def lstat(self, path):
+        """like stat, but a symbolic link is not followed: its own inode is reported (it exists even when dangling)"""
+        self.trace.append(("lstat", path))
+        if isinstance(path, str) and path in self.link_inode:
+            return SimpleNamespace(st_ino=self.link_inode[path])
+        return self.stat(path)
 
     def close_fails(self, handle):
         return bool(self.close_failure)
